@@ -295,7 +295,7 @@ const UNFOLD = UNNEST; // "UNFOLD" is deprecated, just for backward compatibilit
 function parse_number(val) {
     // We can do a more pedantic number test like `/^ *-{0,1}[0-9]+\.{0,1}[0-9]* *$/.test(val)`, but  user will probably use just Number(val) or parseInt/parseFloat
     let result = Number(val);
-    if (isNaN(result) || (typeof val === 'string' && val.trim().length == 0)) { // Number('') and Number('  ') are 0, but an empty cell is not a number
+    if (isNaN(result) || val === null || (typeof val === 'string' && val.trim().length == 0)) { // Number(null), Number('') and Number('  ') are 0, but a missing field or an empty cell is not a number
         throw new RbqlRuntimeError(`Unable to convert value "${val}" to a number. MIN, MAX, SUM, AVG, MEDIAN and VARIANCE aggregate functions convert their string arguments to numeric values`);
     }
     return result;
